@@ -7,8 +7,8 @@ CONSTANTS
   Targets <- NodeTargets
   MaxSteps = 6
   MaxBuilds = 3
-  MaxEdits = 3
-  MaxSwitch = 2
+  MaxEdits = 2
+  MaxSwitch = 1
   WithDB = {TRUE, FALSE}
 INIT MCInit
 NEXT MCNext
